@@ -326,9 +326,18 @@ def generate():
     out.append(",\n".join(f"  ({lean_str(L['name'])}, [{', '.join(lean_str(o) for o in L['overrides'])}])"
                           for L in layouts if L["overrides"]) + "]")
     out += ["", "/-- classes defined by the harness itself (a minimal user subclass with operator- and tensor-valued keyword",
-            "arguments: `super().__init__(base, extra_op=extra_op, scale=scale)`), so that the driver can rebuild them -/",
+            "arguments: `super().__init__(base, extra_op=extra_op, scale=scale, index=index, mask=mask)`), so that the driver can rebuild them -/",
             "def harnessClasses : List (String × Layout) := [",
-            '  ("UserWrapLinearOperator", ⟨1, false, ["base", "extra_op", "scale"], [("extra_op", (some .none)), ("scale", (some .none))], false, [], []⟩)]']
+            '  ("UserWrapLinearOperator", ⟨1, false, ["base", "extra_op", "scale", "index", "mask"], [("extra_op", (some .none)), ("scale", (some .none)), ("index", (some .none)), ("mask", (some .none))], false, [], []⟩)]']
+    guard = False
+    base_src = ast.parse(open(os.path.join(REPO, OPDIR, "_linear_operator.py")).read())
+    for node in base_src.body:
+        if isinstance(node, ast.ClassDef) and node.name == BASE:
+            for st in node.body:
+                if isinstance(st, ast.FunctionDef) and st.name == "to":
+                    guard = any(isinstance(n, ast.Attribute) and n.attr == "is_floating_point" for n in ast.walk(st))
+    out += ["", "/-- `LinearOperator.to` tests `is_floating_point` before casting a tensor (false: it casts every tensor) -/",
+            f"def baseToGuardsKind : Bool := {'true' if guard else 'false'}"]
     out += ["", "def layoutOf (c : String) : Option Layout := ((classes ++ harnessClasses).find? (·.1 = c)).map (·.2)", "",
             "end LinOp.Generated.C14", ""]
     text = "\n".join(out)
